@@ -341,3 +341,32 @@ def declared_type_items(pt, rng):
         it = Item("declared_type", "app", v, (False, fp), {"version": v, "fp": fp})
         it.anytype = True
         yield _compile(pt, it, lambda: c02.declared_type_program(pt))
+
+
+def boundary_immediate_items(pt, shard, nshards):
+    """Deterministic sweep of the slicing constructors over the values where a one-byte immediate starts and stops fitting: every
+    (start, end/length) pair over {0, 1, 2, 254, 255, 256, 257, 300} for Substring / Extract / Suffix, at every version."""
+    I = pt.Int
+    vals = [0, 1, 2, 254, 255, 256, 257, 300]
+    k = 0
+    for kind in ("substring", "extract", "suffix"):
+        for a in vals:
+            for b in (vals if kind != "suffix" else [0]):
+                if kind == "substring" and b < a:
+                    continue
+                for v in (2, 3, 4, 5, 6, 8, 10):
+                    k += 1
+                    if k % nshards != shard:
+                        continue
+
+                    def make(kind=kind, a=a, b=b):
+                        src = pt.BytesZero(I(700)) if True else None
+                        if kind == "substring":
+                            e = pt.Substring(src, I(a), I(b))
+                        elif kind == "extract":
+                            e = pt.Extract(src, I(a), I(b))
+                        else:
+                            e = pt.Suffix(src, I(a))
+                        return pt.Seq(pt.Pop(e), I(1))
+                    it = Item("immediates", "app" if k % 3 else "sig", v, (None, None), {"kind": "boundary_" + kind, "a": a, "b": b})
+                    yield _compile(pt, it, make, assemble=(k % 4 == 0 and v >= 3))
